@@ -252,25 +252,33 @@ type vpoint struct {
 	fr  *frame
 	blk *ssa.BasicBlock
 	idx int
+	ret map[*ssa.Call]*ssa.Return // path-sensitive: through which return each helper call on this path came back
+	rk  string
 }
+
+// resultEnv says, while a path is being explored, through which of its returns a looked-through helper call came
+// back on this path: the provenance of the call's result is then that return's operand only.
+var resultEnv map[*ssa.Call]*ssa.Return
 
 // viPathExists is pathExists over the virtually inlined root (see pathExists for the contract).
 func viPathExists(root *ssa.Function, from, to ssa.Instruction, cutEdge EdgePred, cutInstr func(ssa.Instruction) bool) bool {
 	if len(root.Blocks) == 0 {
 		return false
 	}
-	saved := paramEnv
-	defer func() { paramEnv = saved }()
+	saved, savedRes := paramEnv, resultEnv
+	defer func() { paramEnv, resultEnv = saved, savedRes }()
 	seen := map[string]bool{}
 	var work []vpoint
-	push := func(fr *frame, b *ssa.BasicBlock, i int) {
-		k := fr.key + "|" + b.Parent().Name() + "#" + itoa(b.Index) + ":" + itoa(i)
+	var cur vpoint
+	pushR := func(fr *frame, b *ssa.BasicBlock, i int, ret map[*ssa.Call]*ssa.Return, rk string) {
+		k := fr.key + "|" + b.Parent().Name() + "#" + itoa(b.Index) + ":" + itoa(i) + "|" + rk
 		if seen[k] {
 			return
 		}
 		seen[k] = true
-		work = append(work, vpoint{fr, b, i})
+		work = append(work, vpoint{fr, b, i, ret, rk})
 	}
+	push := func(fr *frame, b *ssa.BasicBlock, i int) { pushR(fr, b, i, cur.ret, cur.rk) }
 	if from == nil {
 		push(newFrame(root, nil, nil), root.Blocks[0], 0)
 	} else {
@@ -289,8 +297,10 @@ func viPathExists(root *ssa.Function, from, to ssa.Instruction, cutEdge EdgePred
 	for len(work) > 0 {
 		pt := work[len(work)-1]
 		work = work[:len(work)-1]
+		cur = pt
 		fr, b := pt.fr, pt.blk
 		paramEnv = fr.env
+		resultEnv = pt.ret
 		stopped := false
 		for i := pt.idx; i < len(b.Instrs); i++ {
 			in := b.Instrs[i]
@@ -306,8 +316,13 @@ func viPathExists(root *ssa.Function, from, to ssa.Instruction, cutEdge EdgePred
 				stopped = true // continues when the callee returns
 				break
 			}
-			if _, isRet := in.(*ssa.Return); isRet && fr.parent != nil {
-				push(fr.parent, fr.site.Block(), instrIndex(fr.site)+1)
+			if rt, isRet := in.(*ssa.Return); isRet && fr.parent != nil {
+				nr := map[*ssa.Call]*ssa.Return{}
+				for k, v := range pt.ret {
+					nr[k] = v
+				}
+				nr[fr.site] = rt
+				pushR(fr.parent, fr.site.Block(), instrIndex(fr.site)+1, nr, retKey(nr))
 				stopped = true
 				break
 			}
@@ -315,12 +330,15 @@ func viPathExists(root *ssa.Function, from, to ssa.Instruction, cutEdge EdgePred
 		if stopped || len(b.Instrs) == 0 {
 			continue
 		}
-		if iff, ok := b.Instrs[len(b.Instrs)-1].(*ssa.If); ok && cutEdge != nil {
-			if !cutEdge(iff.Cond, true) {
-				push(fr, b.Succs[0], 0)
-			}
-			if !cutEdge(iff.Cond, false) {
-				push(fr, b.Succs[1], 0)
+		if iff, ok := b.Instrs[len(b.Instrs)-1].(*ssa.If); ok {
+			for i, br := range []bool{true, false} {
+				if cutEdge != nil && cutEdge(iff.Cond, br) {
+					continue
+				}
+				if len(pt.ret) > 0 && infeasibleEdge(iff.Cond, br) {
+					continue // contradicts the value the helper returned on this path
+				}
+				push(fr, b.Succs[i], 0)
 			}
 		} else {
 			for _, s := range b.Succs {
@@ -429,24 +447,28 @@ func (s Site) guarded(root *ssa.Function, pred EdgePred) bool {
 
 // viPathToSite: some path from root's entry reaches the site in its own context, avoiding cut edges/instructions.
 func viPathToSite(root *ssa.Function, s Site, cutEdge EdgePred, cutInstr func(ssa.Instruction) bool) bool {
-	saved := paramEnv
-	defer func() { paramEnv = saved }()
+	saved, savedRes := paramEnv, resultEnv
+	defer func() { paramEnv, resultEnv = saved, savedRes }()
 	seen := map[string]bool{}
 	var work []vpoint
-	push := func(fr *frame, b *ssa.BasicBlock, i int) {
-		k := fr.key + "|" + b.Parent().Name() + "#" + itoa(b.Index) + ":" + itoa(i)
+	var cur vpoint
+	pushR := func(fr *frame, b *ssa.BasicBlock, i int, ret map[*ssa.Call]*ssa.Return, rk string) {
+		k := fr.key + "|" + b.Parent().Name() + "#" + itoa(b.Index) + ":" + itoa(i) + "|" + rk
 		if seen[k] {
 			return
 		}
 		seen[k] = true
-		work = append(work, vpoint{fr, b, i})
+		work = append(work, vpoint{fr, b, i, ret, rk})
 	}
+	push := func(fr *frame, b *ssa.BasicBlock, i int) { pushR(fr, b, i, cur.ret, cur.rk) }
 	push(newFrame(root, nil, nil), root.Blocks[0], 0)
 	for len(work) > 0 {
 		pt := work[len(work)-1]
 		work = work[:len(work)-1]
+		cur = pt
 		fr, b := pt.fr, pt.blk
 		paramEnv = fr.env
+		resultEnv = pt.ret
 		stopped := false
 		for i := pt.idx; i < len(b.Instrs); i++ {
 			in := b.Instrs[i]
@@ -462,8 +484,13 @@ func viPathToSite(root *ssa.Function, s Site, cutEdge EdgePred, cutInstr func(ss
 				stopped = true
 				break
 			}
-			if _, isRet := in.(*ssa.Return); isRet && fr.parent != nil {
-				push(fr.parent, fr.site.Block(), instrIndex(fr.site)+1)
+			if rt, isRet := in.(*ssa.Return); isRet && fr.parent != nil {
+				nr := map[*ssa.Call]*ssa.Return{}
+				for k, v := range pt.ret {
+					nr[k] = v
+				}
+				nr[fr.site] = rt
+				pushR(fr.parent, fr.site.Block(), instrIndex(fr.site)+1, nr, retKey(nr))
 				stopped = true
 				break
 			}
@@ -471,12 +498,15 @@ func viPathToSite(root *ssa.Function, s Site, cutEdge EdgePred, cutInstr func(ss
 		if stopped || len(b.Instrs) == 0 {
 			continue
 		}
-		if iff, ok := b.Instrs[len(b.Instrs)-1].(*ssa.If); ok && cutEdge != nil {
-			if !cutEdge(iff.Cond, true) {
-				push(fr, b.Succs[0], 0)
-			}
-			if !cutEdge(iff.Cond, false) {
-				push(fr, b.Succs[1], 0)
+		if iff, ok := b.Instrs[len(b.Instrs)-1].(*ssa.If); ok {
+			for i, br := range []bool{true, false} {
+				if cutEdge != nil && cutEdge(iff.Cond, br) {
+					continue
+				}
+				if len(pt.ret) > 0 && infeasibleEdge(iff.Cond, br) {
+					continue // contradicts the value the helper returned on this path
+				}
+				push(fr, b.Succs[i], 0)
 			}
 		} else {
 			for _, sc := range b.Succs {
@@ -485,4 +515,42 @@ func viPathToSite(root *ssa.Function, s Site, cutEdge EdgePred, cutInstr func(ss
 		}
 	}
 	return false
+}
+
+// definitelyNonNilError: every origin of v (on the path being explored) is the result of an error constructor.
+func definitelyNonNilError(v ssa.Value) bool {
+	os := originsOf(v)
+	if len(os) == 0 {
+		return false
+	}
+	for _, o := range os {
+		call := asCall(o.V)
+		if call == nil {
+			return false
+		}
+		n := calleeName(&call.Call)
+		switch {
+		case n == "errors.New", n == "fmt.Errorf":
+		case strings.HasPrefix(n, "github.com/go-openapi/errors.") && !strings.HasSuffix(n, ".CompositeValidationError"):
+		default:
+			return false
+		}
+	}
+	return true
+}
+
+// infeasibleEdge prunes branches that cannot be taken on the path being explored: `v == nil` (or `!(v != nil)`) for a
+// value that is, on this path, freshly constructed by an error constructor.
+func infeasibleEdge(cond ssa.Value, branch bool) bool {
+	return factNil(definitelyNonNilError, true)(cond, branch)
+}
+
+// retKey is the canonical form of a path's helper-return binding (finite: one entry per call site).
+func retKey(m map[*ssa.Call]*ssa.Return) string {
+	var parts []string
+	for c, r := range m {
+		parts = append(parts, c.Parent().Name()+"."+c.Name()+"="+itoa(r.Block().Index))
+	}
+	sort.Strings(parts)
+	return strings.Join(parts, ";")
 }
